@@ -57,14 +57,33 @@ theorem finished_has_no_running_stage (c : Cfg) (s : State) (id retry : Nat) (st
            have := h1 st hst
            rw [hrun] at this
            cases this)
-        | (have hinc : ∀ (x : Nat), x < c.n → ¬(s.stage x).status = Status.running ∧
-              ((s.stage x).status = Status.notStarted → allUpContinuable c s x = false) := by assumption
-           have := (hinc k (by omega)).1
+        | (rename_i hinc
+           have := (hinc k (by omega)).1.1.1
            rw [hsk] at this
            exact this hrun))
   · intro hns i hi hrun
     simp only [hCompleteWorkflow, hnc, hf, hlegal]
     simp [hns, hi, hrun]
+
+/-- **F43 repair**: a workflow is never reported SUCCEEDED while a stage is explicitly waiting (SUSPENDED for a signal,
+    PAUSED for a resume) - neither by the all-continuable clause nor by the STOPPED clause, whose "no other branch is
+    incomplete" test used to look at RUNNING and ready NOT_STARTED stages only. -/
+theorem succeeded_leaves_no_waiting_stage (c : Cfg) (s : State) (retry : Nat)
+    (hf : finalStatus c s retry = some .succeeded) (hlen : s.stages.length = c.n) :
+    ∀ st ∈ s.stages, st.status ≠ .suspended ∧ st.status ≠ .paused := by
+  intro st hst
+  obtain ⟨k, hk, hke⟩ := List.getElem_of_mem hst
+  have hsk : s.stage k = st := by simp [State.stage, List.getD_eq_getElem?_getD, hk, hke]
+  unfold finalStatus at hf
+  simp only [] at hf
+  (repeat' split at hf) <;> simp_all
+  · rename_i h1
+    have := h1 st hst
+    constructor <;> (intro h; rw [h] at this; cases this)
+  · rename_i hinc
+    have h2 := (hinc.2 k (by omega)).1
+    rw [hsk] at h2
+    exact ⟨h2.1.2, h2.2⟩
 
 /-- **A workflow that has reached a final status starts no further stage** (F37 repair): a StartStage arriving
     afterwards commits nothing on a NOT_STARTED stage … -/
